@@ -398,6 +398,22 @@ def gen_triangle(rng: random.Random, shape=None):
     if rng.random() < 0.5:
         t = t.replace(values=lambda c: {k: (np.abs(x) + 1 if isinstance(x, np.ndarray) else abs(x) + 1)
                                         for k, x in c.values.items()})
+    # sample arrays of narrower / other dtypes (accepted by Cell.__init__): float32, int32, int16, bool.
+    # Writers and numeric code that "widen" such values must not store the widened array back into the cell.
+    if v == "array" and rng.random() < 0.35:
+        dt = rng.choice([np.float32, np.float32, np.int32, np.int16, np.bool_])
+        which = rng.choice(["all", "some"])
+
+        def narrow(x):
+            if isinstance(x, np.ndarray) and (which == "all" or rng.random() < 0.5):
+                return (x != 0) if dt is np.bool_ else x.astype(dt)
+            return x
+
+        try:
+            t = t.replace(values=lambda c: {k: narrow(x) for k, x in c.values.items()})
+            info["narrow_dtype"] = np.dtype(dt).name
+        except Exception:  # noqa: BLE001
+            pass
     # metadata whose details / loss_details hold None and other falsy values (the dicts of the frozen
     # Metadata dataclass are mutable: an operation that "cleans" them in place changes its argument)
     falsy = rng.random()
